@@ -62,11 +62,12 @@ Fixpoint replace2 (a b : Z) (r : list Z) (s : list Z) : list Z :=
   | [] => []
   end.
 
-(* rxsci/io/file.py read(size=n) in text mode: f.read(n) until it returns '' *)
+(* rxsci/io/file.py read(size=n) in text mode: f.read(n) until it returns ''
+   (cur = current chunk, reversed; rev_append because List.rev is quadratic) *)
 Fixpoint chunk_go (size n : N) (cur : list Z) (s : list Z) : list (list Z) :=
   match s with
-  | [] => match cur with [] => [] | _ :: _ => [rev cur] end
-  | c :: t => if N.eqb (n + 1) size then rev (c :: cur) :: chunk_go size 0 [] t
+  | [] => match cur with [] => [] | _ :: _ => [rev_append cur []] end
+  | c :: t => if N.eqb (n + 1) size then rev_append (c :: cur) [] :: chunk_go size 0 [] t
               else chunk_go size (n + 1) (c :: cur) t
   end.
 Definition chunks_of (size : N) (s : list Z) : list (list Z) := chunk_go size 0 [] s.
